@@ -971,10 +971,12 @@ def unionRes (inParam : Bool) (ms : List Ty) : List Ty :=
   ms.filter (fun t => !isLitE (key t) && key t ≠ .none) ++ ms.filter (fun t => isLitE (key t)) ++
     ms.filter (fun t => key t = .none)
 
-def normUnion (inParam : Bool) (ms : List Ty) : Ty :=
-  match unionRes inParam ms with
+/-- a union with one member is that member -/
+def singleOrUnion : List Ty → Ty
   | [x] => x
-  | res => .union res
+  | r => .union r
+
+def normUnion (inParam : Bool) (ms : List Ty) : Ty := singleOrUnion (unionRes inParam ms)
 
 mutual
 def normTy (tps : List String) (inParam : Bool) : Ty → Ty
@@ -1562,10 +1564,46 @@ def fTys (g : GCtx) (inParam : Bool) : List Ty → Bool
   | t :: ts => fTy g inParam t && fTys g inParam ts
 end
 
-/-! ## TEMP stubs -/
-def inFragment (_u : TUnit) : Bool := true
+/-- names `_ann_assign` / `_bare_assign` / `_split_definitions` treat specially -/
+def specialDeclNames : List String := ["__match_args__", "__slots__", "__all__"]
+
+def fConst (g : GCtx) (c : Const) : Bool :=
+  mConst g c && fTy g false c.ty && !specialDeclNames.contains c.name
+
+def fDecl (g : GCtx) (d : TypeParamDecl) : Bool :=
+  mDecl g d && fTys g false d.constraints &&
+  (match d.bound with | some b => fTy g false b | none => true)
+
+/-- an alias must print as `X = <type expression>`; `X = None` would be read back as a constant -/
+def fAlias (g : GCtx) (a : Alias) : Bool :=
+  mAlias g a && fTy g false a.ty && tyExpr false a.ty ≠ .none && !specialDeclNames.contains a.name
+
+/-- the names of all module-level declarations, in the order `_check_for_duplicate_defs` sees them -/
+def unitNames (u : TUnit) : List String :=
+  u.functions.map (·.name) ++ u.constants.map (·.name) ++ u.typeParams.map (·.name) ++
+  u.classes.map Class.name ++ u.aliases.map (·.name)
+
+/-- the guards of `InFragment`, as named groups (reported by the driver) -/
+def fragmentGuards (u : TUnit) : List (String × Bool) :=
+  let g := unitCtx u
+  [ ("f-modelled", modelled u),
+    ("f-const", u.constants.all (fConst g)),
+    ("f-typeparam", u.typeParams.all (fDecl g)),
+    ("f-alias", u.aliases.all (fAlias g)),
+    -- stages 2 and 3 (functions, classes) are covered by the correspondence only
+    ("f-no-class", u.classes.isEmpty),
+    ("f-no-func", u.functions.isEmpty),
+    -- every declared name once (`_check_for_duplicate_defs`, and last-one-wins otherwise)
+    ("f-names-once", decide (unitNames u).Nodup),
+    -- `NoneType` is neither a type parameter nor an alias
+    ("f-nonetype", !g.tps.contains "NoneType" && !g.aliasNames.contains "NoneType") ]
+
+/-- the emitted-dialect fragment the theorems of Props/C05.lean are about -/
+def inFragment (u : TUnit) : Bool := (fragmentGuards u).all (·.2)
+
 def failedGuards (u : TUnit) : List String :=
   ((modelledGuards u).filter (fun x => !x.2)).map (·.1) ++
-  (if isUnsupported (convert (printUnit u)) then ["m-unsupported"] else [])
+  (if isUnsupported (convert (printUnit u)) then ["m-unsupported"] else []) ++
+  ((fragmentGuards u).filter (fun x => !x.2)).map (·.1)
 
 end PytypeModel.Pytd
